@@ -424,7 +424,8 @@ PROPS["C14"] = {
     "level_note": _thr_note + "Secondary store = harness map with a yield in every method (slow store); admission probability 1, 0 and symbolic; one worker (thorough: two); a full hand-off queue is modelled by letting the select in removeEntry take its default branch nondeterministically. Round 4/5 additions: concurrent hybrid histories under C01's linearizability oracle from four start states (quick: the operation pair that exposed the worker-gap defect; thorough: the full menu and failing writes), failed demotion writes, save/load of a hybrid cache over a surviving secondary tier.",
     "assumptions": ["workers keep up between the calls of the sequential histories (the race program does not assume it)"],
     "outside_bound": ["more than two workers", "histories longer than N (quick 4, thorough 5)"],
-    "quick": [H("ZZ_C14_FailedDemotion", params={"PROMOTE": 0}, reach=["evicted"], bounds="newer value evicted, its secondary write fails or succeeds (every call, by choice)"),
+    "quick": [H("ZZ_C14_SeqX", params={"N": 4, "FAIL": 1}, reach=["sequence-done", "hit"], bounds="sequential hybrid histories of 4 calls with secondary writes that fail by choice: a hit is the last completed Set, never deleted or expired"),
+              H("ZZ_C14_FailedDemotion", params={"PROMOTE": 0}, reach=["evicted"], bounds="newer value evicted, its secondary write fails or succeeds (every call, by choice)"),
               H("ZZ_C14_FailedDemotion", params={"PROMOTE": 1}, reach=["evicted"]),
               H("ZZ_C14_SaveLoadHybrid", params={"PROMOTE": 0}, reach=["loaded"], bounds="save/load round trip of a hybrid cache over a secondary tier that holds an older copy"),
               H("ZZ_C14_SaveLoadHybrid", params={"PROMOTE": 1}, reach=["loaded"]),
@@ -443,7 +444,8 @@ PROPS["C14"] = {
               H("ZZ_C15_ReloadAfterSecondaryExpiry", reach=["reloaded"], bounds="hybrid loading Get of a key whose only copy, in the secondary tier, has expired (advance 2^29..2^31 ns symbolic)"),
               H("ZZ_C14_LoadingVariants", params={"MODE": 0, "PRE": 1}, reach=["done"], bounds="hybrid loading Get racing a Set of the same key, preemptions 1"),
               H("ZZ_C14_LoadingVariants", params={"MODE": 1}, reach=["done"], bounds="hybrid loading Get after the newer value expired, read time symbolic")],
-    "thorough": [H("ZZ_C14_Conc", params={"SETUP": 0, "PRE": 1}, reach=["history-complete"], bounds="two clients x 1 op from {Set k1, Set k2, Get k1, Delete k1}, empty start"),
+    "thorough": [H("ZZ_C14_SeqX", params={"N": 5, "FAIL": 1}, reach=["sequence-done", "hit"]), H("ZZ_C14_SeqX", params={"N": 5}, reach=["sequence-done", "hit"]),
+              H("ZZ_C14_Conc", params={"SETUP": 0, "PRE": 1}, reach=["history-complete"], bounds="two clients x 1 op from {Set k1, Set k2, Get k1, Delete k1}, empty start"),
               H("ZZ_C14_Conc", params={"SETUP": 1, "PRE": 1}, reach=["history-complete"], bounds="key 1 demoted at the start"),
               H("ZZ_C14_Conc", params={"SETUP": 2, "PRE": 1}, reach=["history-complete"], bounds="key 1 promoted and clean at the start"),
               H("ZZ_C14_Conc", params={"SETUP": 3, "PRE": 1}, reach=["history-complete"], bounds="key 1 promoted and overwritten at the start"),
@@ -466,7 +468,8 @@ PROPS["C15"] = {
     "level_note": _thr_note + "Secondary store = harness map; one worker; queue never full (the property conditions on it). Round 4/5 additions: a hybrid Get (plain and loading) racing the slow secondary write of the evicted entry (the entry is in one of the tiers at any time), failing demotion writes, demotion of entries restored by LoadCache.",
     "assumptions": ["workers given time to keep up (settle after each call)"],
     "outside_bound": ["more than 3 writes", "more than one worker"],
-    "quick": [H("ZZ_C14_SaveLoadHybrid", params={"PROMOTE": 0}, reach=["loaded"], bounds="entries restored by LoadCache into a hybrid cache are demoted on eviction like any other (still retrievable afterwards)"),
+    "quick": [H("ZZ_C14_SeqX", params={"N": 4, "FAIL": 1}, reach=["sequence-done"], bounds="every pattern of failing secondary writes over 4 calls: error handler once per failure, memory tier within MaxSize"),
+              H("ZZ_C14_SaveLoadHybrid", params={"PROMOTE": 0}, reach=["loaded"], bounds="entries restored by LoadCache into a hybrid cache are demoted on eviction like any other (still retrievable afterwards)"),
               H("ZZ_C14_SaveLoadHybrid", params={"PROMOTE": 1}, reach=["loaded"]),
               H("ZZ_C15_VisibleWhileDemoted", params={"PRE": 1}, reach=["both-returned"], bounds="hybrid Get racing the (slow) secondary write of the evicted entry: the entry is in one of the tiers at any time"),
               H("ZZ_C15_VisibleWhileDemoted", params={"PRE": 1, "LOADING": 1}, reach=["both-returned"], bounds="loading variant: no reload"),
@@ -476,7 +479,8 @@ PROPS["C15"] = {
               H("ZZ_C15_ReloadAfterSecondaryExpiry", reach=["reloaded"], bounds="loader entry reloaded after its secondary copy expired (advance 2^29..2^31 ns symbolic), then evicted again"),
               H("ZZ_C15_PoolRecycled", params={"POOL": 1}, reach=["recycling"], bounds="entry pool on: the object of a clean promoted entry is recycled for another key, which must still be demoted"),
               H("ZZ_C14_StalePromoted", reach=["evicted-again"], bounds="demote, promote, overwrite, evict again: the overwritten value must reach the secondary tier")],
-    "thorough": [H("ZZ_C15_VisibleWhileDemoted", params={"PRE": 2}, reach=["both-returned"]),
+    "thorough": [H("ZZ_C14_SeqX", params={"N": 5, "FAIL": 1}, reach=["sequence-done"]),
+              H("ZZ_C15_VisibleWhileDemoted", params={"PRE": 2}, reach=["both-returned"]),
               H("ZZ_C15_VisibleWhileDemoted", params={"PRE": 2, "LOADING": 1}, reach=["both-returned"]),
               H("ZZ_C14_StalePromoted", reach=["evicted-again"]), H("ZZ_C15_Demotion", params={"N": 4}, reach=["filled"]), H("ZZ_C15_Demotion", params={"FAIL": 1, "N": 4}, reach=["filled"]),
                  H("ZZ_C15_LoaderDemotion", reach=["loaded-two"]),
